@@ -38,6 +38,8 @@ selftest/mutants/F20-reintroduce.patch C03 thorough
 selftest/mutants/F21-reintroduce.patch C01
 selftest/mutants/F22-reintroduce.patch C01
 selftest/mutants/F23-reintroduce.patch C07
+selftest/mutants/F24-reintroduce.patch C07
+selftest/mutants/F25-reintroduce.patch C07
 seeded/C15-c/patch.diff C15
 seeded/C19-c/patch.diff C19
 seeded/C11-c/patch.diff C11
@@ -46,6 +48,17 @@ seeded/C08-c/patch.diff C08
 seeded/C20-c/patch.diff C20
 seeded/C03-c/patch.diff C03
 seeded/C10-c/patch.diff C10
+seeded/C04-c/patch.diff C04
+seeded/C05-c/patch.diff C05
+seeded/C09-c/patch.diff C09
+seeded/C12-c/patch.diff C12
+seeded/C13-c/patch.diff C13
+seeded/C14-c/patch.diff C14
+seeded/C16-c/patch.diff C16
+seeded/C17-c/patch.diff C17
+seeded/C18-c/patch.diff C18
+seeded/C06-c/patch.diff C06
+seeded/C07-c/patch.diff C07
 seeded/C01-a/patch.diff C01
 seeded/C02-a/patch.diff C02
 seeded/C03-a/patch.diff C03
